@@ -13,7 +13,7 @@ from harness import util
 
 THEOREMS = ['C01_sht_gram', 'C01_sht_roundtrip', 'C01_sht_roundtrip_bandlimited', 'C01_masked_inert',
             'C01_sht_batch', 'C01_sht_integral', 'C01_fast_roundtrip', 'C01_fast_padding_inert',
-            'C01_sht_integral_R', 'C01_normalization_constant', 'C01_grid_table_resolves',
+            'C01_sht_integral_R', 'C01_normalization_literal', 'C01_grid_table_resolves',
             'C01_hyps_satisfiable']
 LEVEL = 'proof'
 LEVEL_TEXT = ('machine-checked theorems (Coq) for every field, all sizes M,L,I,J (and paddings), all tables and ALL '
@@ -250,6 +250,16 @@ def r_factory(ctx, a):
             g = sh.Grid.with_wavenumbers(M, dealiasing=deal)
             m = [int(v) for v in ctx.model.call(18, [order, M], [])]
             ctx.exact(f'with_wavenumbers {deal}', [g.longitude_wavenumbers, g.total_wavenumbers, g.longitude_nodes, g.latitude_nodes], m)
+    # _CONSTANT_NORMALIZATION_FACTOR (literal read by the translator) against the live module and against sqrt(4 pi)
+    from dinosaur import primitive_equations as pe
+    cq = ctx.model.call(21, [], [])[0]
+    ctx.exact('_CONSTANT_NORMALIZATION_FACTOR literal = live module value', float(cq), float(pe._CONSTANT_NORMALIZATION_FACTOR))
+    ctx.table_obligation('|_CONSTANT_NORMALIZATION_FACTOR^2 - 4 pi| <= 1e-6', abs(float(cq) ** 2 - 4 * math.pi) <= 1e-6,
+                         {'c': float(cq), 'c^2 - 4pi': float(cq) ** 2 - 4 * math.pi})
+    ones = np.asarray(sh.Grid(2, 3, 5, 3).to_modal(jnp.ones((5, 3))))
+    ctx.oracle_close('a constant field of ones has sqrt(4 pi) in entry [0,0] (what the literal stands for)',
+                     ones[0, 0], np.asarray(math.sqrt(4 * math.pi)), scale=8.0)
+    ctx.oracle_close('... and the literal agrees with it to float32 accuracy', np.asarray(float(cq)), ones[0, 0], scale=1.0, tol_rel=1e-7)
     # radius default
     ctx.exact('radius default', sh.Grid(2, 3, 4, 3).radius, 1.0)
 
